@@ -24,6 +24,8 @@ AtomToks(a) ==
     [] a = "*" -> << Tok("star", "*") >>
     [] a = "#i" -> << Hash("i", <<>>) >>
     [] a = ">" -> << Tok("gt", ">") >>
+    [] a = ":2" -> << Nth(":nth-child(2)", 0, 2) >>       \* a compound of its own (the blanks around it are descendant combinators)
+    [] a = ":odd" -> << Nth(":nth-child(2n+1)", 2, 1) >>
     [] a = "+" -> << Tok("plus", "+") >>          \* combinators the library does not implement: no selector kind, so
     [] a = "~" -> << Tok("tilde", "~") >>         \* the rule set whose prelude holds one is dropped (code and reference)
     [] a = "B1" -> << Tok("lbrace", "{"), Tok("ident", "color"), Tok("colon", ":"), Hash("040404", <<4, 4, 4>>), Tok("rbrace", "}") >>
